@@ -19,6 +19,7 @@
 package staticfiles
 
 import (
+	"io"
 	"math/rand"
 	"net/http"
 	"os"
@@ -223,6 +224,10 @@ func (fs FileServer) serveFile(w http.ResponseWriter, r *http.Request) (int, err
 	// request is handled in http.ServeContent below, which checks against this ETag value.
 	w.Header().Set("ETag", etag)
 
+	if w.Header().Get("Content-Encoding") != "" {
+		w = encodedFileWriter{w}
+	}
+
 	// Note: Errors generated by ServeContent are written immediately
 	// to the response. This usually only happens if seeking fails (rare).
 	// Its signature does not bubble the error up to us, so we cannot
@@ -230,6 +235,31 @@ func (fs FileServer) serveFile(w http.ResponseWriter, r *http.Request) (int, err
 	http.ServeContent(w, r, d.Name(), d.ModTime(), f)
 
 	return http.StatusOK, nil
+}
+
+// encodedFileWriter is the response writer handed to http.ServeContent when a
+// precompressed file is served. ServeContent answers a failed precondition
+// (412) without a body and leaves the header as it is: the Content-Length and
+// Content-Encoding announced for the compressed file must not go out with it.
+type encodedFileWriter struct {
+	http.ResponseWriter
+}
+
+// WriteHeader drops the headers describing the compressed file from a 412.
+func (w encodedFileWriter) WriteHeader(code int) {
+	if code == http.StatusPreconditionFailed {
+		w.Header().Del("Content-Length")
+		w.Header().Del("Content-Encoding")
+	}
+	w.ResponseWriter.WriteHeader(code)
+}
+
+// ReadFrom keeps the io.ReaderFrom of the underlying writer in use.
+func (w encodedFileWriter) ReadFrom(src io.Reader) (int64, error) {
+	if rf, ok := w.ResponseWriter.(io.ReaderFrom); ok {
+		return rf.ReadFrom(src)
+	}
+	return io.Copy(struct{ io.Writer }{w.ResponseWriter}, src)
 }
 
 // IsHidden checks if file with FileInfo d is on hide list.
